@@ -19,17 +19,19 @@ sys.path.insert(0, os.path.dirname(os.path.dirname(os.path.abspath(__file__))))
 from sa import core  # pylint: disable=g-import-not-at-top
 
 
-def run_property(prop, tier, root=None, quiet=False, write=True):
+def run_property(prop, tier, root=None, quiet=False, write=True,
+                 overrides=None):
   """Runs all rules of a property; returns (exit_code, report)."""
   mod = importlib.import_module('sa.rules.%s' % prop.lower())
-  repo = core.Repo(root)
+  repo = core.Repo(root, overrides)
   report = core.Report(prop, tier, repo)
   mod.run(report, repo)
   if not write:
     return None, report
   if tier == 'thorough':
     from sa import selftest  # pylint: disable=g-import-not-at-top
-    report.selftest = selftest.run_for(prop)
+    report.selftest = selftest.run_for(
+        prop, baseline=[(v['rule'], v['key']) for v in report.violations])
   code = core.finish(report, mod.DECIDES, mod.DOES_NOT_DECIDE)
   return code, report
 
